@@ -102,6 +102,11 @@ pub fn bin(rng: &mut Rng, b: &mut Budget) -> Bytes {
     Bytes::from(rng.bytes(n))
 }
 pub fn topic_name(rng: &mut Rng, b: &mut Budget) -> TopicName {
+    if rng.chance(1, 16) {
+        // names that LOOK like something else: a topic NAME may start with "$share/" or "$SYS/" like any other text
+        let s = *rng.pick(&["$share/g/t", "$share/g", "$share", "$SYS/broker/load", "$queue/jobs", "$", "/", "//", " "]);
+        return TopicName::try_from(s.to_string()).expect("valid topic name");
+    }
     let n = text_len(rng, b);
     let s = text_of_len(rng, n, &ALPHA);
     let s = with_special_edge(rng, s, n);
